@@ -100,6 +100,38 @@ def replay_line(line) -> list[tuple[str, str]]:
             return [lol(prefix + (i,), depth + 1) for i in range(dims[depth])]
 
         builders.append(("from_lol", lambda: Tensor.from_lol(lol((), 0), dimensions=dims, format=f1)))
+    # defaulted arguments: no format (default_format_given_nnz / dense for from_lol) and no dimensions (inferred from the
+    # largest coordinate / the nesting): which format or size is chosen is not prescribed, the content must survive,
+    # and converting to the conversion target must give the specified arrays
+    want_dok_ = {tuple(c): fl(v) for c, v in line["dok"]}
+    loose = [("from_aos(format=None)", lambda: Tensor.from_aos(coords, values, dimensions=dims), True)]
+    if n > 0:
+        soa_ = tuple(zip(*coords)) if coords else tuple([] for _ in range(n))
+        loose.append(("from_soa(format=None)", lambda: Tensor.from_soa(soa_, values, dimensions=dims), True))
+    if coords and len(set(coords)) == len(coords):
+        loose.append(("from_dok(dimensions=None)", lambda: Tensor.from_dok(dict(zip(coords, values)), format=f1), False))
+        loose.append(("from_dok(dimensions=None, format=None)", lambda: Tensor.from_dok(dict(zip(coords, values))), False))
+    if no_zero and all(d > 0 for d in dims):
+        loose.append(("from_lol(dimensions=None, format=None)", lambda: Tensor.from_lol(lol((), 0)), True))
+    for name, build, dims_given in loose:
+        try:
+            t = build()
+            expect(t.order == n, f"{name}: order {t.order}")
+            expect(t.to_dok() == want_dok_, f"{name}: to_dok {t.to_dok()} != {want_dok_}")
+            if dims_given:
+                expect(tuple(t.dimensions) == dims, f"{name}: dimensions {t.dimensions}")
+                # (to_format goes through to_dok, so explicit zeros are gone: the expectation is Pack of the dok)
+                check_tensor(t.to_format(fmt_str(line["fmt2"])), line, line["fmt2"], line["conv"], line["convitems"], line["dok"], name + ".to_format")
+            else:
+                inferred = tuple(max(c[i] for c in coords) + 1 for i in range(n))
+                expect(tuple(t.dimensions) == inferred, f"{name}: dimensions {t.dimensions} (largest coordinate + 1 = {inferred})")
+            t3 = pickle.loads(pickle.dumps(t))
+            expect(t3.to_dok() == want_dok_ and t3.format == t.format and t3.dimensions == t.dimensions, f"{name}.pickle: content/format/dimensions changed")
+            expect(t3 == t, f"{name}.pickle: == is False")
+        except Mismatch as e:
+            bad.append((str(e).split(":")[1].strip().split(" ")[0], str(e)))
+        except Exception as e:  # noqa: BLE001
+            bad.append(("raised-" + type(e).__name__, f"{name}: {type(e).__name__}: {e}"))
     for name, build in builders:
         try:
             t = build()
@@ -170,8 +202,12 @@ def run(tier, seed):
            "samples": samples, "exhaustive": exhaustive, "bounds": PARAMS[tier]}
     from .. import structure_conf
 
+    # default_format_given_nnz is compared with spec/Structure.tla; which format is chosen when none is given is not
+    # part of the property (content must survive in ANY format - the requests above include format = None), so a
+    # deviation is a NOTE
     sv, sr, sn = structure_conf.check_default(tier)
-    vio += sv
+    structure_conf.note("C09", sv, "default_format_given_nnz")
+    cov["default_format_deviations"] = len(sv)
     cov["states"] += sr.distinct
     cov["transitions"] += sr.generated
     cov["default_format_cases_compared"] = sn
